@@ -333,8 +333,12 @@ class PrimitiveEquationsSpecs:
     """Rescales and casts the given non-dimensional value to timedelta64."""
     base_unit = 's'  # return value is rounded down to nearest base_unit
     dt = self.scale.dimensionalize(value, units(base_unit)).m
-    # remove floating point noise (e.g., 26.999999999999996) before truncation.
-    dt = np.round(dt, 6)
+    # remove floating point noise (e.g., 26.999999999999996) before truncation:
+    # values within a few ulps (at least 0.5 microseconds) of a whole number of
+    # base units are snapped to it, also for durations beyond 2**32 seconds.
+    nearest = np.round(dt)
+    noise = np.maximum(5e-7, 4 * np.spacing(np.abs(nearest)))
+    dt = np.where(np.abs(dt - nearest) <= noise, nearest, dt)[()]
     if isinstance(dt, np.ndarray):
       return dt.astype(f'timedelta64[{base_unit}]')
     else:
